@@ -319,9 +319,8 @@ func c10World(rc *kernel.RunCtx) {
 			rc.Fail("harness", "dev mode files: %v", err)
 		} else {
 			cold := t.Bool("cold-cache")
-			if cold {
-				coldDevCache()
-			}
+			devFilesJustModified = t.Chance(1, 3, "text-files-just-modified")
+			coldDevCache() // a fresh cache, and files dated as the tape says (see there)
 			templruntime.SetDevelopmentMode(true)
 			devRender := func() outcome {
 				return renderOnce(u, spec, knobs{BufSize: kn.BufSize}, Fault{}, -1, -1, false, nil, nil)
